@@ -117,6 +117,9 @@ def check_program(prog, K, max_paths):
     except fsym.Unsupported as e:
         return unsupported(e, "cannot read the module emitted for")
     ex = Explorer(timeout_ms=3000, max_paths=max_paths, max_decisions=300, wall_s=40)
+    # what runs inside a path here is my own executor of the emitted text (fsym) and term construction, not dagrt: a path
+    # that exceeds its CPU budget is undecided, not a hang of the code under test
+    ex.timeout_is_undecided = True
     try:
         res = ex.explore(harness(prog, txt, K))
     except fsym.Unsupported as e:
